@@ -187,6 +187,21 @@ func c06Shape(c *ctx, depth int) orb.Geometry {
 
 func init() {
 	register("core", func(c *ctx) {
+		// a process that has cloned, compared and bounded tens of thousands of values before (nil and empty ones of every
+		// kind among them): what the calls below answer does not depend on how many came before
+		guard(func() {
+			warm := []orb.Geometry{orb.Point{}, orb.MultiPoint(nil), orb.MultiPoint{}, orb.LineString(nil), orb.LineString{}, orb.Ring(nil), orb.Ring{},
+				orb.MultiLineString(nil), orb.MultiLineString{nil}, orb.Polygon(nil), orb.Polygon{nil}, orb.MultiPolygon(nil), orb.MultiPolygon{nil},
+				orb.Collection(nil), orb.Collection{}, orb.Collection{orb.Collection(nil), orb.Collection{}}, orb.Bound{}}
+			for i := 0; i < 30000; i++ {
+				for _, g := range warm {
+					typedClone(g)
+					orb.Clone(g)
+					orb.Equal(g, g)
+					g.Bound()
+				}
+			}
+		})
 		n := c.pick(6000, 150000)
 		for i := 0; i < n; i++ {
 			switch i % 6 {
